@@ -61,7 +61,11 @@ NEEDS = {
 
 def results():
     res = {}
-    for f in sorted(glob.glob("/verif/out/mut_batch*.txt")) + sorted(glob.glob("/verif/out/mut_C*.txt")):
+    def num(f):
+        m = re.search(r"mut_batch(\d+)", f)
+        return int(m.group(1)) if m else 0
+    # later batches override earlier ones (numeric order), single re-runs (mut_C*.txt) come last
+    for f in sorted(glob.glob("/verif/out/mut_batch*.txt"), key=num) + sorted(glob.glob("/verif/out/mut_C*.txt")):
         for line in open(f):
             m = re.match(r"RESULT mutant=(\S+) prop=(\S+) seed=(\S+) rc=(\d+) (.*)", line)
             if m:
